@@ -573,6 +573,56 @@ def separators(run, m, F, E, L):
     return n
 
 
+TRIM_CORE_RE = re.compile(r'^ST::string::trim(_left|_right)?\(char const\*\) const$')
+TRIM_ANY_RE = re.compile(r'^ST::string::trim(_left|_right)?\(.*\) const$')
+
+
+def trim_family(run, m, F, E):
+    """R08.9: every other overload of the trim members reaches the charset core of its kind; one that walks the string itself with
+    a predicate of the unit alone (a built-in notion of white space) must accept exactly the units of the library's default set
+    ST_WHITESPACE (read from the driver's constant), decided by finite case analysis over the predicate's paths."""
+    from . import setrep
+    n = 0
+    ws = m.globals.get('stverif_default_whitespace')
+    wset = None
+    if ws is not None and isinstance(ws.get('init'), list) and all(isinstance(b, int) for b in ws['init']):
+        wset = set(b & 0xFF for b in ws['init'] if b)
+    for name in F.lib:
+        f = m.func(name)
+        if not TRIM_ANY_RE.match(f.dem) or TRIM_CORE_RE.match(f.dem):
+            continue
+        n += 1
+        reach = [m.func(t) for t in F.reachable_from([name]) if t != name and m.has(t)]
+        if any(TRIM_CORE_RE.match(g.dem) for g in reach):
+            run.ob('R08.9', short(f.dem), True, 'forwards to the charset core', disc='forwarder', loc=fn_loc(f))
+            continue
+        preds = setrep.candidates(m, F, [name], skip=lambda d: d.startswith('_ST_PRIVATE::find_c') or d.startswith('_ST_PRIVATE::compare_c'))
+        pure = [(g, k) for (g, k) in preds if len(g.params) == 1]
+        if not pure:
+            run.ob('R08.9', short(f.dem), None, 'a trim overload that does not reach the charset core: a separate implementation, not analysed', disc='separate', loc=fn_loc(f))
+            continue
+        for (g, k) in pure:
+            acc = setrep.accepted_units(None, m, F, E, g, k)
+            if acc is None or wset is None:
+                run.ob('R08.9', short(f.dem), None, 'walks the string with %s: the units it accepts are not decided%s' %
+                       (short(g.dem, 50), '' if wset is not None else ' (default set ST_WHITESPACE not found)'), disc='separate', loc=fn_loc(f))
+                continue
+            extra, missing = sorted(acc - wset), sorted(wset - acc)
+            if extra or missing:
+                v = (extra or missing)[0]
+                run.ob('R08.9', short(f.dem), False,
+                       'tests its units with %s, which %s the unit 0x%02X although it %s in the default set ST_WHITESPACE %r: %s(ST_WHITESPACE) and this '
+                       'overload disagree on a text whose %s unit is 0x%02X (accepted units: %s)' %
+                       (short(g.dem, 50), 'accepts' if extra else 'rejects', v, 'is not' if extra else 'is',
+                        ''.join(chr(c) for c in sorted(wset)), f.dem.split('(')[0].split('::')[-1],
+                        'last' if 'right' in f.dem else 'first', v, ' '.join('0x%02X' % c for c in sorted(acc)[:12])),
+                       disc='separate', loc=fn_loc(f))
+            else:
+                run.ob('R08.9', short(f.dem), None, 'walks the string with %s, which accepts exactly the units of ST_WHITESPACE; the walks '
+                       'themselves are not analysed for this overload' % short(g.dem, 50), disc='separate', loc=fn_loc(f))
+    return n
+
+
 def check(run):
     m = run.module()
     F = run.facts()
@@ -585,6 +635,7 @@ def check(run):
     run.floor('slice paths (substr/left/right)', slicing(run, m, F, E, L), 20)
     run.floor('trim paths', trims(run, m, F, E, L), 10)
     run.floor('before_/after_ overloads', separators(run, m, F, E, L), 12)
+    run.counts['other trim overloads'] = trim_family(run, m, F, E)
     # R08.8: a trim that tests its units against a folded representation of the character set (expected count zero on this tree)
     from . import setrep
     run.counts['unit-set predicates under trim'] = setrep.check_members(run, 'R08.8', m, F, E, r'^ST::string::trim(_left|_right)?\(char const\*\) const$', 'trim')
